@@ -328,7 +328,16 @@ def main():
             results.append((mu["name"] + "@" + pid, res, detail))
             print(f"{mu['name']}@{pid}: {res} ({dt:.0f}s) {detail}", flush=True)
         open(path, "w").write(orig)
-    json.dump(results, open("/verif/tools/mutants_result.json", "w"), indent=1)
+    # merge with earlier results (a partial run with --only must not drop the rest)
+    try:
+        old = json.load(open("/verif/tools/mutants_result.json"))
+    except Exception:
+        old = []
+    merged = {r[0]: r for r in old}
+    for r in results:
+        merged[r[0]] = list(r)
+    order = [r[0] for r in old] + [r[0] for r in results if r[0] not in {o[0] for o in old}]
+    json.dump([merged[k] for k in order], open("/verif/tools/mutants_result.json", "w"), indent=1)
     if not keep:
         shutil.rmtree(SREPO, ignore_errors=True)
         shutil.rmtree(SHARN, ignore_errors=True)
